@@ -343,7 +343,10 @@ def trace_validation(ctx, sc):
             sizes = {'point': 0, 'circle': 1, 'ellipse': 2, 'cannulus': 2, 'eannulus': 4, 'rectangle': 2, 'polygon': 0, 'regpoly4': 1}[cls]
             r = sorted(2 * g(1, 20) for _ in range(sizes))
             if cls == 'eannulus':
-                r = [r[0], r[2], r[1], r[3]] if r[0] < r[2] and r[1] < r[3] else [8, 24, 4, 16]
+                if r[0] < r[1] and r[2] < r[3] and rnd.random() < 0.5:       # tall and thin / wide and flat: all of one axis below all of the other
+                    r = [r[0], r[1], r[2], r[3]] if rnd.random() < 0.5 else [r[2], r[3], r[0], r[1]]
+                else:
+                    r = [r[0], r[2], r[1], r[3]] if r[0] < r[2] and r[1] < r[3] else [8, 24, 4, 16]
             if cls == 'cannulus' and r[0] == r[1]:
                 r[1] += 4
             xs, ys = [g(-50, 50) for _ in range(nv)], [g(-50, 50) for _ in range(nv)]
@@ -360,7 +363,7 @@ def trace_validation(ctx, sc):
                     xs, ys = ([0, 16, 16, 0] + [8, 4])[:nv], ([0, 0, 12, 12] + [20, 16])[:nv]        # no repeated trailing vertex (that is what padding looks like)
             items.append({'cls': cls, 'x': xs, 'y': ys, 'r': r,
                           'ang': g(-90, 90) if cls in ('ellipse', 'eannulus', 'rectangle') else 0,
-                          'inc': rnd.choice(['absent', 'absent', 'T', 'F', '0', '1']), 'comp': rnd.choice([-1, -1, rnd.randint(0, 9), 0])})
+                          'inc': rnd.choice(['absent', 'absent', 'T', 'F', '0', '1']), 'comp': rnd.choice([-1, -1, rnd.randint(0, 9), 0, rnd.choice([40000, 100234, 70000 + rnd.randint(0, 9)])])})
         try:
             with warnings.catch_warnings():
                 warnings.simplefilter('ignore')
